@@ -6,8 +6,9 @@ A narrowing cast site is
   * x.type(D) / x.to(D) / x.to(dtype=D) / any call with keyword dtype=D where D names a narrow dtype
     (float, float32, float16, half, bfloat16, int, int32, int16, short, int8, uint8),
   * x.to(y) / x.type_as(y) where y is not a device / dtype expression (adopts the dtype of ANOTHER tensor).
-Each site is recorded as (module, enclosing function, normalised source of the expression) -- no line numbers, so
-edits elsewhere in the file do not disturb the table.  Output: coq/Generated/CastSites.v.  Fail-closed: a file that
+Each site is recorded as (module, enclosing function, the cast OPERATION: `.float()`, `.to(torch.float)`,
+`.type(<tensor>.dtype)`, `torch.ones_like(dtype=torch.float)` ... -- without the receiver expression, variable names or line
+numbers, so renames, hoisting and edits elsewhere in the file do not disturb the table), with its number of occurrences.  Output: coq/Generated/CastSites.v.  Fail-closed: a file that
 does not parse is a broken tie (exit 1)."""
 import ast, os, sys
 from pathlib import Path
@@ -41,8 +42,28 @@ class V(ast.NodeVisitor):
         self.stack.append(n.name); self.generic_visit(n); self.stack.pop()
     visit_AsyncFunctionDef = visit_FunctionDef
 
+    def norm_arg(self, a):
+        """torch.<dtype> stays; everything else is reduced to its shape, so that renaming a variable or hoisting a
+        sub-expression does not change the identity of a site"""
+        if isinstance(a, ast.Starred):
+            return "*"
+        if dtype_name(a) is not None:
+            return "torch." + dtype_name(a)
+        if isinstance(a, ast.Attribute) and a.attr == "dtype":
+            return "<tensor>.dtype"
+        if isinstance(a, ast.Call):
+            return "<call>"
+        if isinstance(a, ast.Constant):
+            return repr(a.value)
+        return "<expr>"
+
     def add(self, n):
-        self.rows.append((self.mod, ".".join(self.stack) or "<module>", " ".join(ast.unparse(n).split())))
+        f = n.func
+        name = f.attr if isinstance(f, ast.Attribute) else (f.id if isinstance(f, ast.Name) else "<fn>")
+        recv = "." if isinstance(f, ast.Attribute) and not (isinstance(f.value, ast.Name) and f.value.id == "torch") else "torch."
+        args = [self.norm_arg(a) for a in n.args] if recv == "." else []
+        kws = [f"{k.arg}={self.norm_arg(k.value)}" for k in n.keywords if k.arg == "dtype"]
+        self.rows.append((self.mod, ".".join(self.stack) or "<module>", f"{recv}{name}({', '.join(args + kws)})"))
 
     def visit_Call(self, n):
         f = n.func
